@@ -102,6 +102,9 @@ def order_only_nsmap(text_a, text_b):
     return walk(pa, pb, False) and found[0]
 
 
+INDENTS = [2, 0, 1, 4, 8, "\t", "", 2]
+
+
 def judge(ctx, t, origin, history=None):
     plain = None
 
@@ -136,11 +139,13 @@ def judge(ctx, t, origin, history=None):
     before = snapshot.Snap([t])
     try:
         text = metapype_io.to_json(t)
-        text_i = metapype_io.to_json(t, indent=2)
+        # (any indentation json.dumps takes: a number of blanks - none, one, many - or a string)
+        ind = INDENTS[len(nodes) % len(INDENTS)]
+        text_i = metapype_io.to_json(t, indent=ind)
         t2 = metapype_io.from_json(text)
         t3 = metapype_io.from_json(text_i)
         text2 = metapype_io.to_json(t2)
-        text3 = metapype_io.to_json(t3, indent=2)
+        text3 = metapype_io.to_json(t3, indent=ind)
     except Exception as e:
         ctx.violation(f"crash:{type(e).__name__}@{emlkit.raise_site(e)}", f"JSON round trip raised {e!r}", wit())
         return
